@@ -711,6 +711,72 @@ impl Prop for OneType {
     }
 }
 
+/// Long histories: thresholds on the number of accepted records (powers of two and their neighbours).
+pub struct OneTypeLong;
+impl Prop for OneTypeLong {
+    type Case = THist;
+    fn name() -> &'static str {
+        "onetype-long"
+    }
+    fn rule() -> &'static str {
+        "enumerated: N accepted writes for N in {1,2,...,2^k-1,2^k,2^k+1 up to 4097} U {1500,3000}, then a rejected write, then 2 accepted \
+         writes (optionally a finalize right before or after the rejected call), through ShapeWriter with index and through the complete \
+         Writer; same oracle as onetype (error value, no write call, final files equal to the history without the rejected call). \
+         Non-trivial: every case"
+    }
+    fn check(c: &THist, ctx: &mut Ctx) -> Result<(), Fail> {
+        ctx.nontrivial();
+        OneType::check(c, ctx)
+    }
+}
+impl EnumProp for OneTypeLong {
+    fn enumerate(env: &Env) -> Box<dyn Iterator<Item = THist>> {
+        let cfg = gen::GenCfg::new(gen::Profile::Small, false, 1, 2);
+        let g_first = sample_strategy(&gen::geom(Ty::Point, cfg), env.seed, "c10-long-first");
+        let g_off = sample_strategy(&gen::geom(Ty::Polyline, cfg), env.seed, "c10-long-off");
+        let g_first_z = sample_strategy(&gen::geom(Ty::MultipointZ, cfg), env.seed, "c10-long-first-z");
+        let mut ns: Vec<usize> = vec![1, 2, 3, 1500, 3000];
+        let top = env.pickn(12, 13);
+        for k in 2..=top {
+            let p = 1usize << k;
+            ns.extend([p - 1, p, p + 1]);
+        }
+        ns.sort();
+        ns.dedup();
+        let mut v = Vec::new();
+        for n in ns {
+            for fin_pos in 0..3u8 {
+                for writer in [0u8, 2u8] {
+                    if writer == 2 && (fin_pos != 0 || n > 2100) {
+                        continue;
+                    }
+                    let mut ops = vec![TOp::First; n];
+                    if fin_pos == 1 {
+                        ops.push(TOp::Fin);
+                    }
+                    ops.push(TOp::Offered);
+                    if fin_pos == 2 {
+                        ops.push(TOp::Fin);
+                    }
+                    ops.push(TOp::First);
+                    ops.push(TOp::First);
+                    let (first, gf) = if n % 2 == 0 { (Ty::Point, g_first.clone()) } else { (Ty::MultipointZ, g_first_z.clone()) };
+                    v.push(THist {
+                        first,
+                        offered: Ty::Polyline,
+                        writer,
+                        ops,
+                        g_first: gf,
+                        g_offered: g_off.clone(),
+                        tail: 0,
+                    });
+                }
+            }
+        }
+        Box::new(v.into_iter())
+    }
+}
+
 impl EnumProp for OneType {
     fn enumerate(env: &Env) -> Box<dyn Iterator<Item = THist>> {
         let max_len = env.pickn(6, 8);
